@@ -75,6 +75,22 @@ PROPS_ALL["C06"] = cache_prop(
     "C06", "Coq proof (same simulation invariant; TTI clause of `justified`) + lock-step correspondence + reference-map oracle with deadlines",
     "Theorems for all histories/configurations for both cache models: any visible answer at reading `now` has now < a + tti where a is the reading of the most recent insert, update or successful get; contains_key, iteration, sync and misses never enter a (on the concurrent cache a late-applied read can only move last_accessed up to a recorded successful get)." + TIE)
 
+PROPS_ALL["C07"] = cache_prop(
+    "C07", "Coq proof (trace theorems + reference-state lemmas; completeness theorem for unbounded single-threaded caches) + lock-step correspondence + reference-map / no-loss oracles",
+    "Theorems for all histories and configurations of both cache models: once the history-level reference state lacks a key (which the reference lemmas show for exactly the targets of invalidate / invalidate_entries_if / invalidate_all), no lookup of any continuation shows it until it is inserted again (immediate + permanent, whatever maintenance does); the reference state of non-targets and of later inserts is untouched, and the unbounded single-threaded cache returns every reference-live entry (precise). PARTIAL: the clause about an invalidating thread racing with readers is covered by the concurrent-cell model only when C02 lands; precision for bounded caches is checked by the correspondence and the no-loss oracle (removal causes), not by a theorem yet." + TIE)
+PROPS_ALL["C16"] = cache_prop(
+    "C16", "Coq proof (iteration = exact duplicate-free listing of the unexpired map entries; trace theorem for justification) + lock-step correspondence + iteration oracle",
+    "Theorems for both cache models, all states/histories: an iteration at reading now lists, without duplicates, exactly the physically held entries that are not expired at now, each with its current value, and every listed entry is justified by the history (never expired/invalidated); iteration changes no state. PARTIAL: the clause about concurrent writers (DashMap shard iteration) is not modelled yet; it is exercised by real-thread stress only when the concurrent harness lands." + TIE)
+PROPS_ALL["C08"] = cache_prop(
+    "C08", "Coq proof (inductive well-formedness invariant => no checked operation fails) + outcome lock-step with overflow checks/debug assertions on + structural walker oracle",
+    "Every raw-pointer dereference, Box::from_raw, unreachable!, expect/unwrap and non-wrapping arithmetic of the source is a checked operation of the models. Theorems: for ALL configurations and histories (< 2^24 ops) the single-threaded cache model never returns Err and stays well formed (node<->entry bijection, no dangling pointer); the sketch never overflows or indexes out of bounds. PARTIAL: the same theorem for the concurrent cache (sequential regime) is being proved (Sync/SInv*.v) and the pointer-level deque refinement is in progress; until they land those parts are covered by the lock-step correspondence (implementation panics/aborts must coincide with model Err), the structural walker and the crash oracle only. Interleavings, allocator behaviour and hardware data races are not modelled." + TIE)
+PROPS_ALL["C10"] = cache_prop(
+    "C10", "Coq proof (accounting clauses of the inductive invariant) + lock-step correspondence on counters + counters-vs-physical oracle",
+    "Theorem for ALL configurations and histories of the single-threaded cache model: after every operation entry_count = number of map entries and weighted_size = sum of their weights (and weights are the weigher's). PARTIAL: for the concurrent cache the corresponding theorem (after a maintenance run that leaves nothing queued: entry_count = |map| = |deque|, weighted_size = weigher sum) is proved on top of contract lemmas whose proof is in progress (Sync/SInvTop.v / SInvWrites.v); until it lands the sync half is decided by the correspondence and the oracle only." + TIE)
+PROPS_ALL["C11"] = cache_prop(
+    "C11", "Coq proof (ownership = node/entry bijection of the inductive invariant; freed-node access is an error) + drop-counting lock-step + live-object oracle",
+    "The models make ownership explicit (a node is live iff member of a deque; entries own their nodes). Theorem for all histories of the single-threaded cache: every node belongs to exactly one resident entry, so the objects referenced by the cache are exactly the resident entries' (as many live key/value objects as residents after every operation). The harness uses drop-counting key/value types and compares live counts with the model after every step and after dropping the cache with ops queued. PARTIAL: sync half pending the SInv proofs (decided by correspondence + oracle meanwhile); that Rc/Arc/Box drop exactly once is Rust's guarantee (trusted)." + TIE)
+
 # Only properties whose whole pipeline is in place are claimed in MANIFEST.json.
-CLAIMED = ["C14", "C01", "C05", "C06"]
+CLAIMED = ["C14", "C01", "C05", "C06", "C07", "C16", "C08", "C10", "C11"]
 PROPS = {k: v for k, v in PROPS_ALL.items() if k in CLAIMED}
